@@ -21,14 +21,17 @@ RULE = (
     "(at two levels) of the gene; every other exon set uses block_featuretype 'noncoding_exon' with decoy children of type exon, "
     "'Noncoding_Exon' and 'noncoding-exon'. bed12() is compared field by field (12 fields, "
     "chrom/start/end/name/score/strand/itemRgb/block count/sizes/starts, thick bounds), must raise ValueError exactly on a span "
-    "mismatch with exons and no other exception; bed12() of the gene must give the same line apart from the name; convert.to_bed12() "
-    "(thick mode) is compared as well. Non-trivial = minus strand or interior interval (seq); >= 2 exons or a span mismatch or no exon "
-    "(bed). use_strand is only named when False (strand-aware is the documented default)."
+    "mismatch with exons and no other exception; with one exon, an inner CDS and thick mode, bed12(block_featuretype=[block type, "
+    "'CDS']) - nested blocks of two types, the last-starting one ending before the feature's end - must raise ValueError as well; "
+    "bed12() of the gene must give the same line apart from the name; convert.to_bed12() (thick mode) is compared as well. Non-trivial "
+    "= minus strand or interior interval (seq); >= 2 exons or a span mismatch or no exon (bed). use_strand is only named when False "
+    "(strand-aware is the documented default)."
 )
 ASSUMPTIONS = [
     "thickStart/thickEnd without thick features, and overlapping exons, are not demanded",
     "thin selection is checked per the docstring's coordinate rule as implemented for BED (thickStart = end of first thin, thickEnd = start-1 of last thin)",
     "pyfaidx is trusted for FASTA access",
+    "with blocks of several types, 'the blocks span the feature' is judged on the block that starts last: it must reach the feature's end, whatever an earlier, longer block reaches",
 ]
 
 RECORDS = {"chrA": "ACGTTGCAAGCT", "chrB": "GRYKMCNBD"}        # chrB carries IUPAC ambiguity codes
